@@ -4,8 +4,10 @@ package linker
 
 import (
 	"github.com/evanw/esbuild/internal/ast"
+	"github.com/evanw/esbuild/internal/config"
 	"github.com/evanw/esbuild/internal/graph"
 	"github.com/evanw/esbuild/internal/js_ast"
+	"github.com/evanw/esbuild/internal/logger"
 )
 
 // K08a-mangle: property mangling is independent of (a) the raw source indices,
@@ -163,6 +165,89 @@ func vK15fChunkNames() {
 		vAssert(names[i] != "", "every binding gets a name")
 		for j := i + 1; j < len(names); j++ {
 			vAssert(names[i] != names[j], "a binding imported from another chunk and the chunk's own top-level bindings never share a minified name (duplicate declaration otherwise)")
+		}
+	}
+	vReach("end")
+}
+
+// K15g: external imports of CommonJS-wrapped files are hoisted out of the
+// wrapper when the output keeps ESM syntax, so every binding they declare
+// (namespace, default, named items) lives in the chunk's top-level scope and
+// must be renamed against the other files' hoisted bindings. Two wrapped files
+// import from external modules with the same local names.
+func vK15gHoistedImports() {
+	c := hCtx(1, 3)
+	c.options.OutputFormat = config.FormatESModule
+	syms := ast.NewSymbolMap(3)
+	syms.SymbolsForSource[0] = []ast.Symbol{}
+	type shape struct{ hasDefault, hasItems, hasStar bool }
+	var shapes [2]shape
+	for f := 1; f <= 2; f++ {
+		sh := shape{hasDefault: vBool(), hasItems: vBool(), hasStar: false}
+		if !sh.hasDefault && !sh.hasItems {
+			sh.hasStar = true
+		}
+		shapes[f-1] = sh
+		// symbols: 0 wrapper, 1 namespace, 2 default "d", 3 item "x"
+		syms.SymbolsForSource[f] = []ast.Symbol{
+			{OriginalName: "require_f", Link: ast.InvalidRef, Kind: ast.SymbolOther},
+			{OriginalName: "ns", Link: ast.InvalidRef, Kind: ast.SymbolImport},
+			{OriginalName: "d", Link: ast.InvalidRef, Kind: ast.SymbolImport},
+			{OriginalName: "x", Link: ast.InvalidRef, Kind: ast.SymbolImport},
+		}
+	}
+	c.graph.Symbols = syms
+	c.graph.Files[0].InputFile.Repr = &graph.JSRepr{AST: js_ast.AST{ModuleScope: &js_ast.Scope{Members: map[string]js_ast.ScopeMember{}}}}
+	for f := 1; f <= 2; f++ {
+		sh := shapes[f-1]
+		ref := func(i uint32) ast.Ref { return ast.Ref{SourceIndex: uint32(f), InnerIndex: i} }
+		repr := &graph.JSRepr{}
+		repr.Meta.Wrap = graph.WrapCJS
+		repr.AST.WrapperRef = ref(0)
+		repr.AST.ImportRecords = []ast.ImportRecord{{Kind: ast.ImportStmt}}
+		scope := &js_ast.Scope{Members: map[string]js_ast.ScopeMember{}}
+		scope.Label.Ref = ast.InvalidRef
+		imp := &js_ast.SImport{ImportRecordIndex: 0, NamespaceRef: ref(1)}
+		scope.Members["ns"] = js_ast.ScopeMember{Ref: ref(1)}
+		if sh.hasStar {
+			imp.StarNameLoc = &logger.Loc{}
+		}
+		if sh.hasDefault {
+			imp.DefaultName = &ast.LocRef{Ref: ref(2)}
+			scope.Members["d"] = js_ast.ScopeMember{Ref: ref(2)}
+		}
+		if sh.hasItems {
+			imp.Items = &[]js_ast.ClauseItem{{Alias: "x", Name: ast.LocRef{Ref: ref(3)}}}
+			scope.Members["x"] = js_ast.ScopeMember{Ref: ref(3)}
+		}
+		repr.AST.ModuleScope = scope
+		repr.AST.Parts = []js_ast.Part{{IsLive: true, Stmts: []js_ast.Stmt{{Data: imp}}}}
+		c.graph.Files[f].InputFile.Repr = repr
+	}
+	c.graph.ReachableFiles = []uint32{0, 1, 2}
+	c.graph.StableSourceIndices = []uint32{0, 1, 2}
+	chunk := &c.chunks[0]
+	chunk.chunkRepr = &chunkReprJS{importsFromOtherChunks: map[uint32]crossChunkImportItemArray{}}
+	r := c.renameSymbolsInChunk(chunk, []uint32{1, 2}, nil)
+	// every binding that is declared by a hoisted import statement
+	var names []string
+	for f := 1; f <= 2; f++ {
+		sh := shapes[f-1]
+		ref := func(i uint32) ast.Ref { return ast.Ref{SourceIndex: uint32(f), InnerIndex: i} }
+		names = append(names, r.NameForSymbol(ref(0)))
+		if sh.hasStar {
+			names = append(names, r.NameForSymbol(ref(1)))
+		}
+		if sh.hasDefault {
+			names = append(names, r.NameForSymbol(ref(2)))
+		}
+		if sh.hasItems {
+			names = append(names, r.NameForSymbol(ref(3)))
+		}
+	}
+	for i := range names {
+		for j := i + 1; j < len(names); j++ {
+			vAssert(names[i] != names[j], "bindings of import statements hoisted out of different CommonJS wrappers (and the wrapper names) are pairwise distinct in the chunk's top-level scope")
 		}
 	}
 	vReach("end")
